@@ -757,7 +757,7 @@ parse_btt(vbi_decoder *vbi, uint8_t *raw, int packet)
 							      0x100 + index);
 
 				if ((code = vbi_unham8 (*raw++)) < 0)
-					break;
+					continue;
 
 				switch (code) {
 				case BTT_SUBTITLE:
